@@ -75,7 +75,7 @@ func bodyCoq(k string) string {
 
 func (r *Req) Coq() string {
 	return fmt.Sprintf("{| q_host := %s; q_required := %s; q_want := %s; q_body := %s; q_auth := %s |}",
-		hx.B(r.Host), r.Required.Coq(), r.Want.Coq(), bodyCoq(r.Body), presetAuthz(r.Auth).Coq())
+		hx.B(r.Host), r.EffRequired().Coq(), r.EffWant().Coq(), bodyCoq(r.Body), presetAuthz(r.Auth).Coq())
 }
 
 func kvsCoq(q []KV) string {
@@ -113,6 +113,81 @@ func (r *Resp) Coq() string {
 			hx.B(r.Token), hx.B(r.Access), hx.B(r.Refresh), hx.Z(int64(r.ExpiresIn)))
 	}
 	return fmt.Sprintf("(RHttp %d %s %s)", r.Status, hx.Bs(r.WWW), body)
+}
+
+// locCoq renders the Location of a token server's answer (Obs.AuthObs.loc).
+func locCoq(l *Loc) string {
+	switch {
+	case l == nil:
+		return "LNone"
+	case l.Bad:
+		return "LBad"
+	}
+	return fmt.Sprintf("(LTo {| t_url := %s; t_base := %s; t_query := %s; t_host := %s; t_hostport := %s |})",
+		hx.B(l.URL), hx.B(l.Base), kvsCoq(l.Query), hx.B(l.Host), hx.B(l.HostPort))
+}
+
+func isRedirect(status int) bool {
+	switch status {
+	case 301, 302, 303, 307, 308:
+		return true
+	}
+	return false
+}
+
+// foldHops turns the events as they happened into the trace the model of RoundTrip speaks about:
+// a token request and the requests by which http.Client followed redirects are ONE exchange with
+// the token service (what doTokenRequest sees: the last answer, or an error when the client
+// gave up); the hops themselves are listed per exchange (index of the exchange in the folded
+// trace -> the chain, first request included) and are compared with the model of the client's
+// redirect policy.
+func foldHops(evs []Ev) (main []Ev, chains map[int][]Ev) {
+	chains = map[int][]Ev{}
+	for _, e := range evs {
+		if e.Kind == "hop" && len(main) > 0 {
+			j := len(main) - 1
+			if p := main[j]; p.Kind == "send" && p.ID == e.ID && p.Msg.Kind != "reg" {
+				if chains[j] == nil {
+					chains[j] = []Ev{p}
+				}
+				chains[j] = append(chains[j], e)
+				continue
+			}
+		}
+		if e.Kind == "hop" {
+			e.Kind = "send" // a hop out of place: shown as it is
+		}
+		main = append(main, e)
+		if e.Kind == "send" && e.Msg.Kind != "reg" && e.Resp != nil && e.Resp.Loc != nil {
+			chains[len(main)-1] = []Ev{e}
+		}
+	}
+	for j, ch := range chains {
+		last := ch[len(ch)-1]
+		fin := *last.Resp
+		if !fin.Fail && isRedirect(fin.Status) && fin.Loc != nil {
+			// a redirect the client did not follow
+			if (fin.Status == 307 || fin.Status == 308) && last.Msg.Kind == "post" && !fin.Loc.Bad && len(ch) < 10 &&
+				fin.Loc.HostPort != ch[0].Msg.HostPort {
+				// the POST would have gone to another host: doTokenRequest's CheckRedirect hook says
+				// http.ErrUseLastResponse, the redirect itself is the answer
+			} else {
+				// the Location does not parse, or the client had followed enough of them
+				// ("stopped after 10 redirects"): Do returns an error
+				fin = Resp{Fail: true}
+			}
+		}
+		fin.Loc = nil
+		f := main[j]
+		f.Resp, f.T = &fin, last.T
+		main[j] = f
+	}
+	return main, chains
+}
+
+func hopCoq(e *Ev) string {
+	return fmt.Sprintf("{| hp_msg := %s; hp_host := %s; hp_hostport := %s; hp_resp := %s; hp_loc := %s |}",
+		e.Msg.Coq(), hx.B(e.Msg.HostName), hx.B(e.Msg.HostPort), e.Resp.Coq(), locCoq(e.Resp.Loc))
 }
 
 func (r *Result) Coq() string {
@@ -178,7 +253,7 @@ func CoqCase(in *CaseIn, obs *Observed) string {
 				if !held {
 					sched = append(sched, fmt.Sprintf("Start %d %s", st.ID, st.Req.Coq()))
 				}
-				reqs = append(reqs, fmt.Sprintf("(%d%%nat, (%s, %s))", st.ID, st.Req.Required.Sexp(), st.Req.Want.Sexp()))
+				reqs = append(reqs, fmt.Sprintf("(%d%%nat, (%s, %s))", st.ID, st.Req.EffRequired().Sexp(), st.Req.EffWant().Sexp()))
 			}
 		case "resume":
 			if !held {
@@ -198,14 +273,28 @@ func CoqCase(in *CaseIn, obs *Observed) string {
 			}
 		}
 	}
-	times := make([]string, len(obs.Events))
-	evs := make([]string, len(obs.Events))
-	for i := range obs.Events {
-		times[i] = hx.Z(obs.Events[i].T)
-		evs[i] = obs.Events[i].Coq()
+	main, chains := foldHops(obs.Events)
+	times := make([]string, len(main))
+	evs := make([]string, len(main))
+	for i := range main {
+		times[i] = hx.Z(main[i].T)
+		evs[i] = main[i].Coq()
 	}
-	return fmt.Sprintf("(CRun {| c_cfg := %s; c_purl := %s;\n    c_sched := %s;\n    c_times := %s;\n    c_trace := %s;\n    c_untouched := %s;\n    c_reqs := %s |})",
-		hx.List(cfg), hx.List(purl), hx.List(sched), hx.List(times), hx.List(evs), hx.Bool(obs.Untouched && !obs.Hung), hx.List(reqs))
+	var idx []int
+	for j := range chains {
+		idx = append(idx, j)
+	}
+	sort.Ints(idx)
+	var hops []string
+	for _, j := range idx {
+		items := make([]string, len(chains[j]))
+		for k := range chains[j] {
+			items[k] = hopCoq(&chains[j][k])
+		}
+		hops = append(hops, fmt.Sprintf("(%d%%nat, %s)", j, hx.List(items)))
+	}
+	return fmt.Sprintf("(CRun {| c_cfg := %s; c_purl := %s;\n    c_sched := %s;\n    c_times := %s;\n    c_trace := %s;\n    c_untouched := %s;\n    c_reqs := %s;\n    c_hops := %s |})",
+		hx.List(cfg), hx.List(purl), hx.List(sched), hx.List(times), hx.List(evs), hx.Bool(obs.Untouched && !obs.Hung), hx.List(reqs), hx.List(hops))
 }
 
 // ParseObserved is what the real parseWWWAuthenticate did with one header.
